@@ -139,6 +139,20 @@ class DensityInterp(TermInterp):
             return ZeroOV()
         if isinstance(op, ast.Mod) and isinstance(l, int) and isinstance(r, int):
             return l % r
+        if isinstance(op, ast.Mult) and isinstance(l, Table) and isinstance(r, Table) and any(isinstance(v, (OV, ZeroOV)) for v in l.cells.values()):
+            if list(l.axes) != list(r.axes) or l.shape != r.shape:
+                raise Mismatch(f"elementwise product of orbital tables with axes {l.axes} and {r.axes}", node)
+
+            cell_axes = tuple(z for z in l.axes if z in ("Orb", "Pts"))  # the tables' own axis labels were just checked to agree
+
+            def mul(x, y):
+                if isinstance(x, ZeroOV) or isinstance(y, ZeroOV):
+                    return ZeroOV()
+                b, pb = (x, y) if x.kind == "B" else (y, x)
+                if b.kind != "B" or pb.kind != "PB":
+                    raise Mismatch(f"product of {x} and {y} is not an orbital x (density matrix . orbital) product", node)
+                return OV("BPB", (b.orders, pb.orders), cell_axes, b.coef * pb.coef)
+            return Table(l.shape, l.axes, {k: mul(l.cells[k], r.cells[k]) for k in l.cells})
         num = lambda v: isinstance(v, (int, float, sp.Rational, sp.Integer, sp.Float)) and not isinstance(v, bool)
         if isinstance(op, (ast.Mult, ast.Div)) and isinstance(l, OV) and num(r):
             k = sp.nsimplify(r, rational=True)
@@ -398,6 +412,28 @@ def make_handler(f, ctx, symmetric=True):
                 return any(v)
         if d == "len" and ast.unparse(e.args[0]) == "points":
             return PointCount()
+        if isinstance(e.func, ast.Attribute) and e.func.attr == "copy" and not e.args and not e.keywords:
+            base = interp.expr(e.func.value)
+            if isinstance(base, (OV, Table, Terms)):
+                return base  # same values; the assignment gives the copy its own identity
+        if d and "." not in d and d.startswith("_"):
+            g = interp.repo_ref.resolve_name(f.module, d, f) if getattr(interp, "repo_ref", None) is not None else None
+            if hasattr(g, "node") and g.module is f.module:
+                # a private helper of the same module: interpreted in place with its parameters bound to the argument values
+                argv = [interp.expr(a) for a in e.args]
+                if e.keywords or len(argv) != len(g.params):
+                    interp.err(f"call of the helper {d} with keywords / defaults", e)
+                for n in ast.walk(g.node):
+                    if isinstance(n, ast.AugAssign) and isinstance(n.target, ast.Name) and n.target.id in g.params:
+                        interp.err(f"the helper {d} updates its parameter `{n.target.id}` in place: not modelled", n)
+                sub = DensityInterp(g, dict(zip(g.params, argv)), make_handler(g, ctx, symmetric), symmetric=symmetric)
+                sub.repo_ref = interp.repo_ref
+                sub.run()
+                if len(sub.returns) != 1:
+                    interp.err(f"the helper {d} does not have exactly one return", e)
+                if getattr(sub, "filters", None):
+                    interp.__dict__.setdefault("filters", []).extend(sub.filters)
+                return sub.returns[0][1]
         if d in ("np.min", "numpy.min", "np.amin", "abs", "np.abs"):
             return "MIN-MARKER"
         if isinstance(e.func, ast.Attribute) and e.func.attr in ("clip", "min"):
@@ -441,6 +477,7 @@ def run_fn(repo, name, ctx, env_over=None, symmetric=True, until_threshold_test=
     env = {p: p for p in f.params}
     env.update(env_over or {})
     it = DensityInterp(f, env, make_handler(f, ctx, symmetric), symmetric=symmetric)
+    it.repo_ref = repo
     if until_threshold_test:
         # the value that is checked against the threshold: interpret the statements that compute it only
         # (what happens to it afterwards is the THRESH rule's business)
@@ -942,7 +979,7 @@ def run(repo, R):
         nsite += 1
         R.check(not problems, "FWD", ff.site, f"{short}(...)#{node.lineno - ff.node.lineno}", f"call of {short}: " + "; ".join(problems),
                 where=ff.where(node), expected="transform=transform" + (", deriv_type=deriv_type" if "deriv_type" in ff.params else ""))
-    R.floor("FWD", nsite, 18, "internal call sites of density.py")
+    R.floor("FWD", nsite, 10, "internal call sites of density.py")
     R.extra["internal_call_sites"] = nsite
     R.assumptions += ["evaluate_basis / evaluate_deriv_basis return the orbital values and their derivatives (C05), axes (orbitals, points)",
                       "G(p,q)=G(q,p) for a symmetric density matrix (validated by the code before use)",
